@@ -3,7 +3,7 @@ From Coq Require Import ZArith List Bool.
 From Coq Require String.
 From PS.model Require Import Smt Enc Ind Prog Driver.
 From PS.spec Require Import Spec.
-From PS.proofs Require Import Base C09_proof C09_levels Bubble C09_conc Examples3.
+From PS.proofs Require Import Base C09_proof C09_levels Bubble C09_conc Examples3 Refuted.
 Import ListNotations.
 Open Scope Z_scope.
 
@@ -62,3 +62,12 @@ Theorem C09_hypotheses_satisfiable : exists st, reaches ex3_prog st /\ sat ex3_e
   /\ List.length (x_objs (ps_ext st)) = 4%nat /\ List.length (spec_C08 st) = 19%nat.
 Proof. exact ex3_sat. Qed.
 Print Assumptions C09_hypotheses_satisfiable.
+
+(* ---- REFUTED on the pinned code (open known findings): the swept clauses below are NOT consequences of the assertion set.
+   Each theorem exhibits a reachable problem state, a valuation the assertion set admits, and a clause of the swept list that is
+   false under it -- all three evaluated by the kernel.  The same program and schedule, replayed on /repo, is the finding. ---- *)
+(* F13: an optional task that is not scheduled still loads / unloads its buffers *)
+Theorem C09_level_after_change_optional_refuted : exists st, reaches f13_prog st /\ sat f13_env (initialize st) /\
+  exists k f, In (k, f) (spec_C09_swept st) /\ feval f13_env f = false.
+Proof. exact F13_refuted_any. Qed.
+Print Assumptions C09_level_after_change_optional_refuted.
